@@ -3,6 +3,7 @@
 package cl
 
 import (
+	"fmt"
 	"math/big"
 
 	"github.com/ohler55/slip"
@@ -106,19 +107,19 @@ func byteSpecArg(s *slip.Scope, arg slip.Object, depth int) (size, pos int) {
 		slip.TypePanic(s, depth, "bytespec", arg, "cons")
 	}
 	var num slip.Fixnum
-	if num, ok = spec[0].(slip.Fixnum); ok {
+	if num, ok = spec[0].(slip.Fixnum); ok && 0 <= num && num <= slip.ArrayMaxDimension {
 		size = int(num)
 	} else {
-		slip.TypePanic(s, depth, "size", spec[0], "fixnum")
+		slip.TypePanic(s, depth, "size", spec[0], fmt.Sprintf("fixnum between 0 and %d", slip.ArrayMaxDimension))
 	}
 	var tail slip.Tail
 	if tail, ok = spec[1].(slip.Tail); !ok {
 		slip.TypePanic(s, depth, "bytespec", arg, "cons")
 	}
-	if num, ok = tail.Value.(slip.Fixnum); ok {
+	if num, ok = tail.Value.(slip.Fixnum); ok && 0 <= num && num <= slip.ArrayMaxDimension {
 		pos = int(num)
 	} else {
-		slip.TypePanic(s, depth, "position", tail.Value, "fixnum")
+		slip.TypePanic(s, depth, "position", tail.Value, fmt.Sprintf("fixnum between 0 and %d", slip.ArrayMaxDimension))
 	}
 	return
 }
